@@ -92,6 +92,10 @@ func c08Classes(b *binding, c *wireCase) (cls []string, nt bool) {
 	if len(c.Perm) > 0 {
 		cls = append(cls, "perm")
 	}
+	if c.Twin {
+		cls = append(cls, "framing-twin")
+		nt = true
+	}
 	return
 }
 
